@@ -127,7 +127,7 @@ func H_C19_damaged() {
 		first = string(j)
 		second = []string{"{\"b\":", "{\"b\":x}", "{\"b\":1", "\"b\":2}{\"c\":3}", "}{\"c\":3}", " } {\"c\":3}"}[vChoose(6)]
 	}
-	switch vChoose(3) {
+	switch vChoose(4) {
 	case 0: // missing file
 		os.Remove(name)
 		var err error
@@ -153,6 +153,22 @@ func H_C19_damaged() {
 			vAssert(len(got) == 1 && vDeepEq(map[string]interface{}(got[0]), map[string]interface{}(good)), "damaged file: the Maps read before the damage are returned with the error")
 		}
 		vCover("after-first")
+	case 3: // a good document followed by blanks only: one Map, whatever the reader form
+		fh, _ := os.Create(name)
+		fh.WriteString(first + []string{" ", "\n  ", "\n\n"}[vChoose(3)])
+		fh.Close()
+		if isXML {
+			got, err := NewMapsFromXmlFileRaw(name)
+			vAssert(err == nil && len(got) == 1 && vDeepEq(map[string]interface{}(got[0].M), map[string]interface{}(good)), "trailing blanks: exactly the one Map is read back (raw)")
+			got2, err2 := NewMapsFromXmlFile(name)
+			vAssert(err2 == nil && len(got2) == 1, "trailing blanks: exactly the one Map is read back")
+		} else {
+			got, err := NewMapsFromJsonFileRaw(name)
+			vAssert(err == nil && len(got) == 1 && vDeepEq(map[string]interface{}(got[0].M), map[string]interface{}(good)), "trailing blanks: exactly the one Map is read back (raw)")
+			got2, err2 := NewMapsFromJsonFile(name)
+			vAssert(err2 == nil && len(got2) == 1, "trailing blanks: exactly the one Map is read back")
+		}
+		vCover("trailing")
 	default: // damage right at the start
 		fh, _ := os.Create(name)
 		fh.WriteString(second)
